@@ -36,4 +36,10 @@ for nm, cov in (('wrap', 'PredictionSchemeWrapDecodingTransform::DecodeTransform
                 ('oct_plain', 'PredictionSchemeNormalOctahedronDecodingTransform::DecodeTransformData/ComputeOriginalValue')):
     ub('C02.xform_%s' % nm, 'C02/xform.cc', 'h_%s' % nm, unwind=10, max_alloc=16, fill_bound=10,
        bound='8 symbolic bytes with symbolic length and version for the transform data, then ANY int32 prediction and correction (2 components)', covers=cov)
+for nm, cov in (('pgram', 'MeshPredictionSchemeParallelogramDecoder::ComputeOriginalValues, ComputeParallelogramPrediction'),
+                ('multi', 'MeshPredictionSchemeMultiParallelogramDecoder::ComputeOriginalValues (fan walk with SwingRight, averaging)'),
+                ):
+    ub('C02.pred_dec_%s' % nm, 'C02/preddec.cc', 'h_%s_dec' % nm, unwind=10, max_alloc=16, defines={'NE': (3 if nm == 'pgram' else 2), 'NCOMP': 1},
+       bound='arbitrary in-range corner table (2 faces, symmetric opposite pairing), 3 (parallelogram) / 2 (multi) entries x 1 component, ANY int32 corrections, any valid wrap bounds, crease-flag arrays of length 0..3',
+       covers=cov + ', PredictionSchemeWrapDecodingTransform::ComputeOriginalValue')
 META = {}
